@@ -17,6 +17,14 @@ CLAIMS = {
             'against the real classes on an exhaustive (n,p) box and random layouts/grids on every simulated rank, exactly.',
             NOTE_COMMON, 'DESIGN.md 4/C02'),
 }
+CLAIMS['C01'] = ('proof', 'Lean 4 theorems (address arithmetic, abstract pack/Alltoall/unpack step, route-following buffer rotation proved for the model function) + exact correspondence of an executable numpy-view-level model with the real LayoutHandler on simulated ranks',
+    'Theorems for all ranks of the array / extents / process counts / route lengths: addresses_in_bounds, addresses_injective, block_concatenation, '
+    'direct_step_correct (padded uneven blocks included), route_transpose_correct_nobuf/_buf (odd and even routes, source intact with a spare buffer) '
+    'about Model/Handler.lean; transpose_defect_a1_zero is the kernel-evaluated witness of the defect repaired by fix: c48bf2a. The executable model '
+    '(statement-by-statement transcription with strided views, Alltoall on all ranks) is compared exactly with the real code: connections, bufferSize, '
+    'route map, every destination block, source intactness, refusals. Bridge between the executable direct step and the abstract step theorem is by '
+    'per-case evaluation of the model (holds flag), not a theorem: stated in DESIGN.md.',
+    NOTE_COMMON, 'DESIGN.md 4/C01')
 PENDING = {
 }
 ALL = ['C%02d' % i for i in range(1, 21)]
